@@ -42,6 +42,8 @@ pub struct WorkerArgs {
     pub out: Option<PathBuf>,
     pub trace: Option<PathBuf>,
     pub only: Option<(String, u64)>,
+    pub family: Option<String>,
+    pub limit: Option<u64>,
 }
 
 /// Entry point of a worker subprocess.
@@ -49,6 +51,8 @@ pub fn worker_main(a: WorkerArgs) -> i32 {
     crate::ctx::install_panic_hook();
     let mut ctx = Ctx::new(&a.prop, a.tier, a.seed, a.shard, a.nshards);
     ctx.only = a.only.clone();
+    ctx.only_family = a.family.clone();
+    ctx.limit = a.limit;
     if let Some(t) = &a.trace {
         ctx.trace = Some(std::fs::File::create(t).expect("trace file"));
     }
